@@ -82,7 +82,7 @@ def gen_registry(tier, rnd):
     for t1 in texts:
         for t2 in texts:
             cases.append(" ".join(["registry", text_op(t1), text_op(t2)] + tail))
-    for _ in range(1500 if tier == "quick" else 20000):
+    for _ in range(700 if tier == "quick" else 20000):
         ops = []
         for _ in range(rnd.randint(2, 6)):
             if rnd.random() < 0.3:
@@ -95,7 +95,7 @@ def gen_registry(tier, rnd):
     # random longer histories, finds interleaved, odd names and revisions
     names = ["m", "mm", "m-x", "a.b", "M", "m@" + D2, "m@"]
     revs = [D1, D2, D3, "", "2020-1-01", "zzz", D2 + "x", "2020", "@", "2020-01-01@1"]
-    for _ in range(1500 if tier == "quick" else 30000):
+    for _ in range(700 if tier == "quick" else 30000):
         odd = rnd.random() < 0.25
         ops = []
         for _ in range(rnd.randint(5, 12)):
@@ -241,7 +241,7 @@ def gen_findfile(tier, rnd):
                                  [(["p0"], rnd.random() < 0.5), (["p1"], False)], name))
     # random nested layouts
     lookups = ["foo"] * 12 + ["foobar", "fo", "foo@2020-01-01", "foo.yang", "foo@2020-01-01.yang", "zz"]
-    for _ in range(4000 if tier == "quick" else 60000):
+    for _ in range(2000 if tier == "quick" else 60000):
         pool = CORE if rnd.random() < 0.5 else NEAR
         tree = [("cwd", rand_dir(rnd, 1, pool) if rnd.random() < 0.3 else [])]
         for i in range(rnd.randint(1, 3)):
@@ -631,7 +631,7 @@ def enum_include_orders():
 def gen_include(tier, rnd):
     """-> list of dict(rich, split, unsplit)"""
     fams = enum_include_orders()
-    for i in range(500 if tier == "quick" else 8000):
+    for i in range(250 if tier == "quick" else 8000):
         rich = i % 3 != 0
         items, augments = gen_family(rnd, rich)
         parts = split_family(rnd, items, augments)
@@ -702,7 +702,7 @@ def gen_revfam(rnd):
     shared = rnd.random() < 0.6                        # every revision includes fsh (which includes fsh2)
     shape = rnd.choice(["both", "nested-only"])        # include fsh; include fsh2;  |  include fsh; (fsh2 through fsh)
     texts, flat, expect = [], [], dict(users={}, derived={}, shared=shared, revs=revs)
-    sh_body = "container sc { leaf sa { type string; } } "
+    sh_body = "container sc { leaf sa { type string; } } identity SHI { base COMMON; } identity SHP { base f:COMMON; } "
     sh2_body = "container sd { leaf sb { type string; } } "
     for r in revs:
         y = r[:4]
@@ -715,7 +715,7 @@ def gen_revfam(rnd):
         texts.append(("f" + y, 'module f { namespace "urn:f"; prefix f; %s%s}' % (incl, rest)))
         flat.append(("f" + y, 'module f { namespace "urn:f"; prefix f; %s%s%s}' % (
             "include fleg; " if leg_of == r else "", rest, (sh_body + sh2_body) if shared else "")))
-        expect["derived"][r] = {"f:COMMON": set(), "f:ONLY" + y: set()}
+        expect["derived"][r] = {"f:COMMON": {"f:SHI", "f:SHP"} if shared else set(), "f:ONLY" + y: set()}
     if shared:
         texts.append(("fsh", "submodule fsh { belongs-to f { prefix f; } include fsh2; %s}" % sh_body))
         texts.append(("fsh2", "submodule fsh2 { belongs-to f { prefix f; } %s}" % sh2_body))
@@ -724,8 +724,8 @@ def gen_revfam(rnd):
                'typedef tl { type int8; units "legacy"; } grouping gl { leaf mleg { type string; } } }')
         texts.append(("fleg", leg))
         flat.append(("fleg", leg))
-        expect["derived"][leg_of]["f:COMMON"].add("f/fleg:LEGACY")
-        expect["derived"][leg_of]["f/fleg:LEGACY"] = set()
+        expect["derived"][leg_of]["f:COMMON"].add("f:LEGACY")
+        expect["derived"][leg_of]["f:LEGACY"] = set()
     users = [(r, "u" + r[:4]) for r in revs if rnd.random() < 0.85] + [(None, "ub")]
     if rnd.random() < 0.5:
         users.append((rnd.choice(revs), "ux"))
@@ -744,7 +744,7 @@ def gen_revfam(rnd):
         expect["derived"][r]["f:COMMON"].add(name + ":UC")
         if leg and pin:
             st += ["identity U2 { base f:LEGACY; }", "leaf c { type f:tl; }"]
-            expect["derived"][r]["f/fleg:LEGACY"].add(name + ":U2")
+            expect["derived"][r]["f:LEGACY"].add(name + ":U2")
             expect["derived"][r]["f:COMMON"].add(name + ":U2")
         if shared and pin:
             st += ['augment "/f:sc" { leaf z%s { type string; } }' % name, 'augment "/f:sd" { leaf w%s { type string; } }' % name]
@@ -753,6 +753,13 @@ def gen_revfam(rnd):
         texts.append((name, t))
         flat.append((name, t))
         expect["users"][name] = dict(rev=r, leg=leg and bool(pin), pinned=bool(pin))
+    if rnd.random() < 0.6:
+        pin = rnd.choice(["2018-01-01", "2019-01-01"])
+        expect["ginc"] = pin
+        for tl in (texts, flat):
+            tl.append(("g", 'module g { namespace "urn:g"; prefix g; include gs { revision-date %s; } leaf own { type string; } }' % pin))
+            for r in ("2018-01-01", "2019-01-01"):
+                tl.append(("gs" + r[:4], 'submodule gs { belongs-to g { prefix g; } revision %s; container gc { leaf g%s { type string; } } }' % (r, r[:4])))
     return texts, flat, expect
 
 
@@ -796,12 +803,14 @@ def check_revfam(line, expect):
     derived = {}
     for m in run["modules"]:
         if m["name"] == "f":
-            derived.setdefault(m.get("rev"), {}).update({i["name"]: set(i["values"]) for i in m.get("identities") or []})
+            derived.setdefault(m.get("rev"), {}).update({_nid(i["name"]): {_nid(v) for v in i["values"]}
+                                                         for i in m.get("identities") or []})
     for m in run["modules"]:
         if m["name"] == "fleg":
             for r, d in expect["derived"].items():
-                if "f/fleg:LEGACY" in d:
-                    derived.setdefault(r, {}).update({i["name"]: set(i["values"]) for i in m.get("identities") or []})
+                if "f:LEGACY" in d:
+                    derived.setdefault(r, {}).update({_nid(i["name"]): {_nid(v) for v in i["values"]}
+                                                      for i in m.get("identities") or []})
     for r, d in expect["derived"].items():
         for k, v in d.items():
             got = derived.get(r, {}).get(k)
@@ -818,6 +827,11 @@ def check_revfam(line, expect):
                            "another revision, or the submodule's nodes are missing)" % (m.get("rev"), cont, got, want)
             if sorted(k for k in kids if k.startswith("only")) != ["only" + m["rev"][:4]]:
                 return "revision %s of f has the leaves %s" % (m.get("rev"), sorted(kids))
+        if m["name"] == "g" and expect.get("ginc"):
+            kids = {c["name"]: c for c in m["tree"].get("children") or []}
+            got = sorted(c["name"] for c in (kids.get("gc") or {}).get("children") or [])
+            if got != ["g" + expect["ginc"][:4]] or m.get("includes") != ["gs=gs@" + expect["ginc"]]:
+                return "module g includes %s and has gc = %s, expected revision %s of gs" % (m.get("includes"), got, expect["ginc"])
         u = expect["users"].get(m["name"])
         if not u:
             continue
@@ -835,7 +849,7 @@ def check_revfam(line, expect):
         if got != want:
             return "%s: container k has %s, expected %s (grouping of the wrong revision)" % (m["name"], got, want)
         t = kids["d"].get("type") or {}
-        if t.get("idbase") != "f:COMMON" or set(t.get("idvalues") or []) != expect["derived"][u["rev"]]["f:COMMON"]:
+        if t.get("idbase") != "f:COMMON" or {_nid(v) for v in t.get("idvalues") or []} != expect["derived"][u["rev"]]["f:COMMON"]:
             return "%s: identityref d (base f:COMMON) has the values %s, expected those of revision %s: %s" % (
                 m["name"], sorted(t.get("idvalues") or []), u["rev"], sorted(expect["derived"][u["rev"]]["f:COMMON"]))
         if u["pinned"]:
@@ -849,7 +863,7 @@ def check_revfam(line, expect):
 
 def run_revfam(res, tier, rnd, stats):
     lines, exps = [], []
-    for _ in range(40 if tier == "quick" else 400):
+    for _ in range(30 if tier == "quick" else 400):
         texts, flat, expect = gen_revfam(rnd)
         n = len(texts)
         newest = "f" + expect["revs"][-1][:4]
@@ -862,10 +876,16 @@ def run_revfam(res, tier, rnd, stats):
                 later = {newest} | {u for u, d in expect["users"].items() if d["pinned"] and d["rev"] == expect["revs"][-1]}
                 lines.append(revfam_case(texts, o, stage={t[0] for t in texts} - later))
                 exps.append((expect, [t[0] for t in texts], o, "staged", None))
+                # a pinned revision arrives late: its importers / the includer were processed with another one in its place
+                late = {"f" + rnd.choice(expect["revs"])[:4]}
+                if expect.get("ginc"):
+                    late.add("gs" + expect["ginc"][:4])
+                lines.append(revfam_case(texts, o, stage={t[0] for t in texts} - late))
+                exps.append((expect, [t[0] for t in texts], o, "staged-pinned-late", None))
             if k < 3 and expect["shared"]:
                 of = rnd.sample(range(len(flat)), len(flat))
                 lines.append(revfam_case(flat, of))
-                exps.append((expect, [t[0] for t in flat], of, "flat", len(lines) - (3 if k < 4 else 2)))
+                exps.append((expect, [t[0] for t in flat], of, "flat", len(lines) - (4 if k < 4 else 2)))
     go = lib.run_go(lines)
     bad = 0
     for k, (l, g, (e, names, o, mode, ref)) in enumerate(zip(lines, go, exps)):
@@ -886,7 +906,7 @@ def run_revfam(res, tier, rnd, stats):
 
 def _jsonable(e):
     return dict(users=e["users"], derived={r: {k: sorted(v) for k, v in d.items()} for r, d in e["derived"].items()},
-                shared=e["shared"], revs=e["revs"], augs=e.get("augs", {}))
+                shared=e["shared"], revs=e["revs"], augs=e.get("augs", {}), ginc=e.get("ginc"))
 
 
 # ------------------------------------------------------------------------------------ run
